@@ -290,7 +290,8 @@ fn run_case(rng: &mut Rng) -> (CaseResult, String, String) {
     let p = Position(loc.start.0, loc.start.1 + 1);
     if let Ok(items) = pool::catch(AssertUnwindSafe(|| completion::auto_complete(&state, &m, p))) {
       for it in items {
-        if it.label == target && !it.additional_edits.is_empty() {
+        // the class is not importable yet in this document: an item offering it must bring the import
+        if it.label == target {
           res.completions_with_edits += 1;
           check_edits("completion", &mods, &doc_name, &doc, &target, &exporters, None, &it.additional_edits, &mut res.fails);
         }
